@@ -1,16 +1,15 @@
 SPECIFICATION Spec
-CONSTANT MaxN = 4
+CONSTANT MaxN = 3
 CONSTANT T = 4
 CONSTANT Sizes = {16, 48}
 CONSTANT Aligns = {16, 64}
 CONSTANT Eqs = {0}
 CONSTANT MaxAddr = 100000
 CONSTANT AddrStep = 1
-PROPERTY Refines
-INVARIANT InvNoOverlapLive
-INVARIANT InvAligned
-INVARIANT InvTotalOK
-INVARIANT InvAboveLowerBound
-INVARIANT InvCur
-INVARIANT InvFold
+CONSTANT MaxIters = {0, 3}
+CONSTANT MemLimits = {0, 100000}
+CONSTANT MinImprove = 2
+CONSTANT MaxStuck = 1
+CONSTANT Guarded = FALSE
+INVARIANT Terminates
 CHECK_DEADLOCK FALSE
